@@ -491,7 +491,8 @@ class BPAdapter:
         self.empty_via = empty_via
         self.tz = tz_offset_min
 
-    def single(self, info: BPInfo, fi: FI, v, plain_position: bool):
+    def single(self, elem_cls, fi: FI, v, plain_position: bool):
+        """Python value for one element of (descriptor) field fi whose Python element class is elem_cls."""
         if fi.wkt == "timestamp":
             return us_to_datetime(v, self.tz)
         if fi.wkt == "duration":
@@ -499,16 +500,15 @@ class BPAdapter:
         if fi.wkt == "wrapper":
             return v
         if fi.type == "message":
-            sub_cls = info.elem_class(fi)
             mi = self.schema.msg(fi.msg)
-            sub = self.build(sub_cls, mi, v)
+            sub = self.build(elem_cls, mi, v)
             if plain_position and not _bp_sow(sub):
                 # present-but-empty: obtain a message that reports serialized_on_wire
-                sub = sub_cls().parse(b"") if self.empty_via == "parse" else sub_cls().from_dict({})
+                sub = elem_cls().parse(b"") if self.empty_via == "parse" else elem_cls().from_dict({})
             return sub
         if fi.type == "enum":
             if self.enum_as == "member":
-                return info.elem_class(fi).try_value(v)
+                return elem_cls.try_value(v)
             return v
         return v
 
@@ -520,13 +520,14 @@ class BPAdapter:
                 continue
             v = tree[fi.name]
             name = info.pyname(fi)
+            ec = info.elem_class(fi)
             if fi.card == "repeated":
-                kw[name] = [self.single(info, fi, x, False) for x in v]
+                kw[name] = [self.single(ec, fi, x, False) for x in v]
             elif fi.card == "map":
                 pairs = v.items() if isinstance(v, dict) else v
-                kw[name] = {k: self.single(info, fi.val, x, False) for k, x in pairs}
+                kw[name] = {k: self.single(ec, fi.val, x, False) for k, x in pairs}
             else:
-                kw[name] = self.single(info, fi, v, fi.card == "single" and not fi.oneof)
+                kw[name] = self.single(ec, fi, v, fi.card == "single" and not fi.oneof)
         return kw
 
     def build(self, cls, mi: MI, tree, route: str = "kwargs"):
@@ -545,7 +546,7 @@ def _bp_sow(m) -> bool:
     return betterproto.serialized_on_wire(m)
 
 
-def _bp_snap_single(schema, info: BPInfo, fi: FI, v):
+def _bp_snap_single(schema, info, fi: FI, v):
     if fi.wkt == "timestamp":
         return datetime_to_us(v) if isinstance(v, datetime) else ("badtype", type(v).__name__)
     if fi.wkt == "duration":
